@@ -9,7 +9,7 @@ COMMON_ASSUMPTIONS = [
 
 HEADROOM = "machine arithmetic is not treated as mathematical: overflow side conditions are explicit preconditions (`headroom`): fewer than 2^24 indices ever allocated and fewer than 2^31-4 reuses of one index"
 
-STORAGE_ASSUME = ["the storage layer is proved against the trait-level contract of UnprotectedStorage<T> for an ARBITRARY implementor; that each built-in kind satisfies the contract is the bounded Kani part (C04 kinds), listed separately and never counted as proved",
+STORAGE_ASSUME = ["the storage layer is proved against the trait-level contract of UnprotectedStorage<T> for an ARBITRARY implementor; DenseVecStorage, HashMapStorage and BTreeStorage are proved to satisfy it as real trait impls (unit kinds, over the MaybeUninit / UnsafeCell / unchecked-Vec / map stubs of prelude/std_unsafe.rs and std_maps.rs); for VecStorage, DefaultVecStorage and NullStorage (whose 'which slots hold a value' exists only in the caller's mask, so no contract over their own fields can define has()) conformance is the bounded Kani part (C04 kinds), listed separately and never counted as proved",
                   "N8: D is instantiated at &MaskedStorage / &mut MaskedStorage (the Fetch/FetchMut aliases), AccessMut<'a> at &'a mut T (so `.access_mut()` is the identity reborrow)",
                   "N13/N14: cfg!(panic = \"abort\") covered for both values; the nested unwinding guard of not_present_insert is hoisted and its Drop body left external (unwinding is outside this family); mem::forget ends the guard's borrow (axiom_guard_resolved)"]
 
@@ -21,10 +21,11 @@ PROPS = {
     'C17': dict(units=['world'], witness='alloc',
                 assumptions=[HEADROOM]),
     'C03': dict(units=['join'], witness='storage', assumptions=[HEADROOM] + STORAGE_ASSUME),
-    'C04': dict(units=['storage', 'flagged'], witness='storage', assumptions=[HEADROOM] + STORAGE_ASSUME + [
-                    "BOUNDED part (Kani, reported under coverage.bounded): Vec/DenseVec/DefaultVec storages against the raw-operation contract from every well-formed state within the stated small bounds; u16 components; BTreeStorage/HashMapStorage conformance is ASSUMED from std map semantics (one-line delegations through a cell); NullStorage only in the C08 harness"],
-                kani=dict(files=['storages_harness.rs'], quick=['dense_step_small', 'dense_clean'], thorough=['dense_step', 'vec_step', 'default_vec_step'], timeout=3000)),
-    'C08': dict(units=['storage'], witness=None, level='other',
+    'C04': dict(units=['storage', 'flagged', 'kinds'], witness='storage', assumptions=[HEADROOM] + STORAGE_ASSUME + [
+                    "unit kinds: 64-bit target (usize = 8 bytes); MaybeUninit<T> modelled as an optional value whose assume_init* REQUIRE initialisation; SyncUnsafeCell/UnsafeCell modelled as a plain cell (get() = shared reference), so shared_get_mut / SliceAccess (raw pointer casts) are not covered; Vec::set_len leaves new elements arbitrary, its capacity precondition and allocation failure are not modelled; AHashMap/BTreeMap are assumed finite maps",
+                    "BOUNDED part (Kani, thorough tier only — the smallest VecStorage harness needs 11 minutes, mostly CBMC symbolic execution of Vec growth; reported under coverage.bounded): VecStorage / DefaultVecStorage against the raw-operation contract from every well-formed state within the stated small bounds, u16 components; the thorough tier also re-checks DenseVecStorage on the real unsafe code (cross-check of the stubs used by the proof); NullStorage only in the C08 harness"],
+                kani=dict(files=['storages_harness.rs'], quick=[], thorough=['vec_step_small', 'vec_step', 'default_vec_step_small', 'default_vec_step', 'dense_step'], timeout=3000)),
+    'C08': dict(units=['storage', 'kinds'], witness=None, level='other',
                 # deductive support for the harness assumption "clean() gets the true mask": the mask/content invariant and the exact
                 # map effect of every layer function that moves a value in or out (Verus, unit storage)
                 also=[r'^storage::(MaskedStorage|Storage\(&mut\)|OccupiedEntry|VacantEntry|Drain_\w+)::\w+::ens\.(wf|map|ret|raw)$', r'^storage::UnprotectedStorage::drop\(default\)::'],
@@ -46,8 +47,8 @@ PROPS = {
                     "N8: LendJoin's GAT Type<'next> is collapsed to a plain associated type; the `&mut Storage` lending member is therefore checked as free functions with the same clauses",
                     "JoinLendIter::for_each (closure capturing &mut) and the `&mut Storage` non-lending Join member (SharedGetMutOnly raw sharing) are not under contract"]),
     'C16': dict(units=['changeset'], witness='misc',
-                kani=dict(files=['storages_harness.rs'], quick=['dense_step_small'], thorough=['dense_step', 'dense_clean'], timeout=3000),
-                assumptions=STORAGE_ASSUME + ["the inner DenseVecStorage<T> is an opaque implementor of the trait-level storage contract here; its conformance is the bounded Kani part (C04 kinds)",
+                kani=dict(files=['storages_harness.rs'], quick=[], thorough=['dense_step_small', 'dense_clean'], timeout=3000),
+                assumptions=STORAGE_ASSUME + ["the inner DenseVecStorage<T> is the REAL struct and trait impl, verified in this unit against the storage contract (over the MaybeUninit / UnsafeCell / unchecked-Vec stubs of prelude/std_unsafe.rs, 64-bit usize); the thorough tier re-checks it on the real unsafe code with Kani (bounded cross-check of those stubs)",
                                               "`T: AddAssign` is modelled by a spec function add_spec(old, new) (arbitrary, possibly non-commutative); `a += b` is desugared to AddAssign::add_assign(&mut a, b) (N16)",
                                               "FromIterator/Extend loops over a generic IntoIterator are not under contract (they call add once per pair in iteration order); the `&mut ChangeSet` non-lending Join member (SharedGetMutOnly) is not under contract"]),
     'C15': dict(units=['marker'], witness='misc',
@@ -87,7 +88,7 @@ MANIFEST_TEXT = {
         technique='Verus data-structure invariant + exact postconditions on the extracted allocator functions'),
     'C16': dict(
         level="Unbounded proof: ChangeSet::add maps the abstract map m to m[id := add_spec(m[id], v)] when id is present (stored value first, new amount second: arrival order) and to m[id := v] otherwise, keeps mask and storage in step; clear empties it; the shared, by-value and lending join members are real trait impls verified against the Join contract (items are exactly the stored amounts; the consuming member removes exactly the fetched slot). With C06's iterator contract each accumulated amount is produced once. A fold lemma shows an unmentioned entity gets nothing.",
-        design_ref='DESIGN.md §5 C16', note=TB + ' dense storage conformance bounded (Kani).',
+        design_ref='DESIGN.md §5 C16', note=TB + ' The inner DenseVecStorage is the real impl, verified in the same unit (unsafe primitives stubbed).',
         technique='Verus contracts on extracted changeset.rs functions and trait impls; abstract add_spec for AddAssign'),
     'C06': dict(
         level="Reduced unbounded proof: a trait-level contract for Join/LendJoin (open returns the member's mask and makes every member index fetchable; get returns the member's item and keeps other indices fetchable) against which (a) the real generic iterators JoinIter::{new,next} and JoinLendIter::{new,next,get,get_unchecked} are verified: keys are the ascending duplicate-free enumeration of the joined mask, one get per key, lookup by entity succeeds exactly for live members; and (b) the real member impls (&Storage, AntiStorage, MaybeJoin, Drain, &EntitiesRes, one-tuple BitAnd) are verified as trait impls, &mut Storage lending as free functions. Bit-set internals and macro-generated tuple impls are outside.",
@@ -102,9 +103,9 @@ MANIFEST_TEXT = {
         design_ref='DESIGN.md §5 C03', note=TB + ' Trait-level storage contract.',
         technique='Verus postconditions (whole-view frame) on each extracted access path, against a trait-level storage contract'),
     'C04': dict(
-        level="Layer: unbounded proof that MaskedStorage/Storage/entry/drain/get_mut_or_default behave as Map<Index,T> operations (exact return values, exact new map, invariant mask == set of stored indices, raw accessors only called with their precondition) for ANY implementor of the trait-level contract. Kinds: that Vec/DenseVec/DefaultVec/Null storages satisfy the contract is checked by Kani on the real unsafe code with small bounds (labelled bounded, not counted as proved).",
-        design_ref='DESIGN.md §5 C04', note=TB + ' Kind conformance is bounded (Kani), BTree/HashMap kinds assumed from std map semantics.',
-        technique='Verus contracts on the generic layer against a trait-level contract; bounded Kani conformance harnesses for the unsafe kinds'),
+        level="Layer: unbounded proof that MaskedStorage/Storage/entry/drain/get_mut_or_default behave as Map<Index,T> operations (exact return values, exact new map, invariant mask == set of stored indices, raw accessors only called with their precondition) for ANY implementor of the trait-level contract. Kinds: the real `impl UnprotectedStorage` of DenseVecStorage (redirection tables, swap-remove fix-up, growth by set_len; representation invariant + pigeonhole lemma for the u32 cast), HashMapStorage and BTreeStorage are verified by Verus against the same contract (unbounded, over stubs for MaybeUninit / UnsafeCell / unchecked Vec access / the map types); that Vec/DefaultVec/Null storages satisfy it is checked by Kani on the real unsafe code with small bounds (labelled bounded, not counted as proved).",
+        design_ref='DESIGN.md §5 C04', note=TB + ' Unsafe primitives are stubs with their documented safety conditions as preconditions; Vec/DefaultVec/Null conformance is bounded (Kani).',
+        technique='Verus contracts on the generic layer and on three real storage impls against a trait-level contract; bounded Kani conformance harnesses for the kinds whose content lives only in the caller\'s mask'),
     'C13': dict(
         level="Unbounded proof for the sequential paired items: get = val(index), get_mut touches exactly its own index (whole-view frame), get_other/get_other_mut follow the mask-and-alive rule, and only get_mut / a successful get_other_mut carry the mutable-access effect of the underlying storage. Parallel variants are outside (no threads).",
         design_ref='DESIGN.md §5 C13', note=TB,
